@@ -123,7 +123,7 @@ def r4_skips(ctx):
         n += 1
         lits = literals(b, R, bb)
         inf = [l for l in lits if l[0] == 'is' and l[2] == frozenset(['Infeasible'])]
-        notroot = any(l[0] == 'false' and l[1][0] == 'bin' and l[1][1] == 'Eq' and any(is_call(x, 'Tree::get_root_idx') for x in (l[1][2], l[1][3])) for l in lits)
+        notroot = any(op == 'Ne' and is_call(y, 'Tree::get_root_idx') for op, x, y in prune.cmp_facts(lits))
         site = 'AffTree::infeasible_elimination#skip_subtree:%s' % ('cached' if inf and inf[0][1][0] == 'field' else 'fresh')
         if inf and notroot:
             ctx.ok('C03.R4', site, 'subtree skipped only under an Infeasible state of a non-root node', t['span'])
